@@ -42,6 +42,8 @@
 #include <linux/futex.h>
 #include <map>
 #include <poll.h>
+#include <setjmp.h>
+#include <signal.h>
 #include <queue>
 #include <set>
 #include <sys/syscall.h>
@@ -476,10 +478,29 @@ static std::string oracle_text()
 // what it saw; op `p premain` reports it later.  The library's own statics
 // (recursive mutex, thread_local count) must be usable at that time.
 // ---------------------------------------------------------------------------
+static sigjmp_buf premain_jb;
+static void premain_segv(int) { siglongjmp(premain_jb, 1); }
 struct PreMain
 {
     char text[256];
     PreMain()
+    {
+        // a crash inside the library at this time (e.g. a library static that is not
+        // constant-initialised) must become a result line, not a dead harness
+        struct sigaction sa, old1, old2;
+        memset(&sa, 0, sizeof sa);
+        sa.sa_handler = premain_segv;
+        sa.sa_flags = SA_NODEFER;
+        sigaction(SIGSEGV, &sa, &old1);
+        sigaction(SIGBUS, &sa, &old2);
+        if (sigsetjmp(premain_jb, 1) == 0)
+            body();
+        else
+            snprintf(text, sizeof text, "premain CRASH (SIGSEGV inside the library before main())");
+        sigaction(SIGSEGV, &old1, nullptr);
+        sigaction(SIGBUS, &old2, nullptr);
+    }
+    void body()
     {
         int a, b, c2, d, e;
         system_lock(); system_lock(); a = syslock_counter();
@@ -773,6 +794,33 @@ static void run_case(const std::vector<std::string> &w, hv::out &o)
         int i = read_ops_done(t);
         return i < (int)c.prog[t].size() ? c.prog[t][i] : Op{0, 0};
     };
+    // ---- oracle (round 3): syslock_counter() of a thread arriving at the first point of an
+    // operation = the nesting depth its OWN completed operations left (L +1, U -1, save -> 0,
+    // restore -> the saved depth; wait / unwait / queue operations are balanced): the count is
+    // per thread and exact, whatever the other threads did meanwhile
+    auto check_count = [&](int u) {
+        if (c.ecase || get_st(u) != PARKED)
+            return;
+        Slot sl = get_slot(u);
+        int i = read_ops_done(u);
+        if (i >= (int)c.prog[u].size())
+            return;
+        char k = c.prog[u][i].k;
+        char first = (k == 'L' || k == 'W' || k == 'O' || k == 'A') ? 'L' : (k == 'P' || k == 'G' || k == 'Z') ? 'a' : k;
+        if (sl.hook != first)
+            return;
+        long depth = 0, saved = 0;
+        for (int j = 0; j < i; j++)
+        {
+            char q = c.prog[u][j].k;
+            if (q == 'L') depth++;
+            else if (q == 'U') depth--;
+            else if (q == 'S') { saved = depth; depth = 0; }
+            else if (q == 'R') depth = saved;
+        }
+        if (sl.cnt != depth)
+            o.fail("syslock_counter() of thread " + std::to_string(u) + " is " + std::to_string(sl.cnt) + " at the start of its operation " + std::to_string(i) + ", its own completed operations leave depth " + std::to_string(depth));
+    };
     auto grant_core = [&](int t) {
         bool waspend[MAXT];
         unsigned long seq0[MAXT];
@@ -862,6 +910,9 @@ static void run_case(const std::vector<std::string> &w, hv::out &o)
                 trace += "+" + std::to_string(pr.second) + " ";
         for (auto &pr : woke)
             acts.push_back({pr.second, '+'});
+        check_count(t);
+        for (auto &pr : woke)
+            check_count(pr.second);
         check_multi();
     };
     auto grant = [&](int t) {
